@@ -460,6 +460,7 @@ func runC16(tier, replay string) {
 	all := `{"expr","call","assign","reset","flow","init","if","for","switch","typeswitch","select","block","vblock","range","func","closure","inline","label","reject"}`
 	confs := []c16Conf{
 		{name: "init-reject", ops: `{"expr","init","reject","if","vblock","block","func"}`, nest: 6, stk: 3, hist: 8},
+		{name: "init-reject-nested", ops: `{"expr","init","reject","closure","func"}`, nest: 6, stk: 3, hist: 8},
 		{name: "if-for-init", ops: `{"expr","call","init","if","for","func"}`, nest: 6, stk: 2, hist: 9},
 		{name: "switch-typeswitch-select", ops: `{"expr","call","switch","typeswitch","select","func"}`, nest: 6, stk: 2, hist: 9},
 		{name: "closures-inline-init", ops: `{"expr","call","init","closure","inline","func","block"}`, nest: 6, stk: 3, hist: 6},
